@@ -670,6 +670,12 @@ def c14_concrete_cases():
         s = Schema(structs=[("S", [(f"f{i}", i, ("u", w)) for i, w in enumerate(widths)])],
                    impls=[("can", "S", None, {"id": 5, "device": "ecu"}, sigs)])
         cases.append(("size_bitstart_option", s, fits))
+    # fields declared out of id order: the last *declared* field is not the last one on the wire
+    for fs, fits in (([("f2", 2, ("u", 8)), ("f0", 0, ("u", 32)), ("f1", 1, ("u", 32))], False),
+                     ([("f1", 1, ("u", 60)), ("f2", 2, ("u", 8)), ("f0", 0, ("u", 4))], False),
+                     ([("f2", 2, ("u", 8)), ("f0", 0, ("u", 32)), ("f1", 1, ("u", 24))], True)):
+        s = Schema(structs=[("S", fs)], impls=[("can", "S", None, {"id": 5, "device": "ecu"}, [])])
+        cases.append(("size_declared_out_of_id_order", s, fits))
     # an enum decides whether the message fits (the warm-up generation sees a same-named narrower enum)
     for w0, fits in ((56, False), (55, True)):
         s = Schema(structs=[("S", [("a", 0, ("u", w0)), ("e", 1, ("enum", "Mode"))])],
